@@ -6,7 +6,7 @@ differential self-test (concrete runs compared against the native binary).
 import math
 import re
 import struct
-import z3
+from . import sx
 from .core import (CLOSURE_PTR, RUST_CALL, Agg, Enum, Cell, Ptr, Dyn, FnItem, FnPtr, StrRef, NullPtr, UNINIT, Unsupported, RustPanic,
                    PathEnd, is_sym, copy_val, f32_round)
 
@@ -21,6 +21,24 @@ class VecObj:
 
     def __repr__(self):
         return 'Vec%r' % (self.f,)
+
+
+class _OpaqueStr(str):
+    """text produced by formatting, which the encoding does not model: any comparison is refused"""
+    __slots__ = ()
+
+    def _refuse(self, *a):
+        raise Unsupported('the content of a formatted string is compared/hashed (formatting is not modelled)')
+
+    __eq__ = _refuse
+    __ne__ = _refuse
+    __hash__ = None
+
+    def strip(self, *a):
+        return self
+
+    def encode(self, *a):
+        self._refuse()
 
 
 class StringObj:
@@ -238,6 +256,34 @@ def register_all(M):
     def any_bool(I, ext, a):
         v = I.ctx.fresh_input(a[0].s, 0, 1)
         return (v != 0) if is_sym(v) else bool(v)
+
+    @reg('harness::vrt::ite_u64', 'harness::vrt::ite_i64')
+    def vrt_ite(I, ext, a):
+        c = a[0]
+        if is_sym(c):
+            return sx.If(c, a[1], a[2])
+        return a[1] if c else a[2]
+
+    @reg('harness::vrt::ite_f64')
+    def vrt_ite_f64(I, ext, a):
+        from .core import SymF, symf_of_const
+        from fractions import Fraction
+        c = a[0]
+        if not is_sym(c):
+            return a[1] if c else a[2]
+        parts = []
+        for v in (a[1], a[2]):
+            if type(v) is SymF:
+                parts.append((v.r, v.mag, v.frac))
+            else:
+                k = symf_of_const(v)
+                if k is None:
+                    if v != v or v in (math.inf, -math.inf):
+                        raise Unsupported('ite_f64 over non-finite constant')
+                    k = (sx.RealVal(Fraction(v)), 99, 99)   # usable in comparisons only
+                parts.append(k)
+        (ra, ma, fa), (rb, mb, fb) = parts
+        return SymF(sx.If(c, ra, rb), max(ma, mb), max(fa, fb))
 
     @reg('harness::vrt::assume')
     def assume(I, ext, a):
@@ -567,7 +613,8 @@ def register_all(M):
         return IterObj(v, 0, len(v.f), 'ref')
 
     @reg('std::slice::<impl [T]>::iter', 'std::slice::<impl [T]>::iter_mut', "<&'a [T] as std::iter::IntoIterator>::into_iter",
-         "<&'a mut [T] as std::iter::IntoIterator>::into_iter")
+         "<&'a mut [T] as std::iter::IntoIterator>::into_iter", "std::slice::iter::<impl std::iter::IntoIterator for &'a [T]>::into_iter",
+         "std::slice::iter::<impl std::iter::IntoIterator for &'a mut [T]>::into_iter")
     def slice_iter(I, ext, a):
         s = a[0]
         return IterObj(s.c, s.i, s.i + s.meta, 'ref')
@@ -737,8 +784,6 @@ def register_all(M):
         exp, new = a[1], a[2]
         if is_sym(old) or is_sym(exp):
             c = old == exp
-            if z3.is_bool(old) or z3.is_bool(exp) or isinstance(old, bool):
-                c = (old == exp)
             same = I.ctx.branch(c)
         else:
             same = old == exp
@@ -1615,7 +1660,9 @@ def register_batch2(M):
             return StringObj(v.f[0].s)
         if t['kind'] == 'int' and not is_sym(v):
             return StringObj(str(v))
-        return StringObj('<%s>' % t['str'][:40])
+        if type(v) is OpaqueObj and v.what == 'uuid':
+            return StringObj('<uuid-%d>' % v.data)
+        return StringObj(_OpaqueStr('<%s>' % t['str'][:40]))
 
     # ------------------------------------------------------------------ fmt (opaque)
     @reg_re(r"^(core|std)::fmt::rt::Argument::<'_>::new_\w+$")
@@ -1628,7 +1675,7 @@ def register_batch2(M):
 
     @reg('std::fmt::format', 'alloc::fmt::format')
     def fmt_format(I, ext, a):
-        return StringObj('<formatted>')
+        return StringObj(_OpaqueStr('<formatted>'))
 
     @reg('std::io::Write::write_fmt', 'std::io::_print', 'std::io::_eprint')
     def write_fmt(I, ext, a):
@@ -1853,22 +1900,30 @@ def register_batch2(M):
         keys = []
         for j in range(n):
             k = I.call_fn(ft['call_once'], [a[1], Agg([Ptr(s.c, s.i + j)])], RUST_CALL)
-            if is_sym(k):
-                k = I.ctx.concretize(k)
             keys.append(k)
         items = [s.c.f[s.i + j] for j in range(n)]
         stable = ext['dname'].endswith('sort_by_key')
-        order = sorted(range(n), key=lambda j: keys[j])
-        if not stable:
-            # unstable sort: any order of equal keys is legal -> chosen by the run
-            out = []
-            j = 0
-            while j < n:
-                g = [x for x in order if keys[x] == keys[order[j]]]
-                perm = M.iteration_order(I, len(g)) if len(g) > 1 else [0]
-                out.extend(g[q] for q in perm)
-                j += len(g)
-            order = out
+        # insertion sort with solver-decided comparisons; equal keys of an unstable sort may end in any order
+        order = []
+        for j in range(n):
+            pos = 0
+            for e in order:
+                ke, kx = keys[e], keys[j]
+                if is_sym(ke) or is_sym(kx):
+                    lt = I.ctx.branch(ke < kx)
+                    eq = False if lt else I.ctx.branch(ke == kx)
+                else:
+                    lt, eq = ke < kx, ke == kx
+                if lt:
+                    pos += 1
+                elif eq:
+                    if stable or I.ctx.nondet_choice('sort-tie', 2) == 0:
+                        pos += 1
+                    else:
+                        break
+                else:
+                    break
+            order.insert(pos, j)
         for j, src in enumerate(order):
             s.c.f[s.i + j] = items[src]
         return UNIT()
@@ -1899,7 +1954,7 @@ def register_batch2(M):
 
     @reg('time::offset_date_time::OffsetDateTime::format')
     def odt_format(I, ext, a):
-        return ok(StringObj('<time>'))
+        return ok(StringObj(_OpaqueStr('<time>')))
 
     @reg('<time::signed_duration::SignedDuration as std::ops::Div>::div', '<time::duration::Duration as std::ops::Div>::div')
     def dur_div(I, ext, a):
